@@ -21,8 +21,8 @@ CONSTANTS
   MaxDeletes = 1
   MaxReads = 1
   MaxSizes = 0
-  MaxOps = 5
-INVARIANTS ValuesContract SizeAccounting CountersNonNegative EntriesTyped
+  MaxOps = 4
+INVARIANTS ValuesContract SizeAccounting PresenceOK CountersNonNegative EntriesTyped
 PROPERTIES RejectedStoresNothing TypeConflictOneKey WriteOutcomeStep LimitStep
 VIEW View
 CHECK_DEADLOCK FALSE
